@@ -165,6 +165,29 @@ def resolve_by_path(t: T, path, memo=None) -> T:
     return go(t)
 
 
+def specialise(t: T, mapping: Dict[T, T]) -> T:
+    """t with the terms of `mapping` replaced (typically an option by one of its literal values) and every phi /
+    conditional whose condition thereby becomes a literal resolved to the arm that is taken"""
+    t2 = substitute(t, mapping)
+    memo: Dict[int, T] = {}
+
+    def go(x):
+        if x.uid in memo:
+            return memo[x.uid]
+        if x.op in ("phi", "ifexp") and len(x.args) == 3:
+            tv = Evaluator._truth(go(x.args[0])) if isinstance(x.args[0], T) else None
+            if tv is not None:
+                r = go(x.args[1] if tv else x.args[2])
+                memo[x.uid] = r
+                return r
+        new_args = tuple(go(a) if isinstance(a, T) else a for a in x.args)
+        r = x if all(p is q for p, q in zip(new_args, x.args)) else simplify(x.op, *new_args)
+        memo[x.uid] = r
+        return r
+
+    return go(t2)
+
+
 def substitute(t: T, mapping: Dict[T, T], memo=None) -> T:
     if memo is None:
         memo = {}
@@ -1263,6 +1286,10 @@ class Evaluator:
                         "<=": a <= b, ">=": a >= b}.get(c.args[0])
             except TypeError:
                 return None
+        if c.op == "cmp" and len(c.args) == 3 and c.args[0] in ("in", "not in") and c.args[1].op == "const" and \
+                c.args[2].op in ("tuple", "list", "set") and all(isinstance(a, T) and a.op == "const" for a in c.args[2].args):
+            hit = c.args[1].args[0] in [a.args[0] for a in c.args[2].args]
+            return hit if c.args[0] == "in" else not hit
         if c.op == "boolop":
             vals = [Evaluator._truth(a) for a in c.args[1:]]
             if c.args[0] == "and":
@@ -1364,7 +1391,14 @@ class Evaluator:
         kws = []
         for k in n.keywords:
             if k.arg is None:
-                kws.append(mk("dstar", self.eval(fr, k.value)))
+                dv = self.eval(fr, k.value)
+                if dv.op == "dict" and len(dv.args) % 2 == 0 and all(
+                        dv.args[j].op == "const" and isinstance(dv.args[j].args[0], str) for j in range(0, len(dv.args), 2)):
+                    # **{"a": x, "b": y}  is  a=x, b=y
+                    for j in range(0, len(dv.args), 2):
+                        kws.append(kw(dv.args[j].args[0], dv.args[j + 1]))
+                else:
+                    kws.append(mk("dstar", dv))
             else:
                 kws.append(kw(k.arg, self.eval(fr, k.value)))
         t = self.apply(fr, f, args, kws, n.lineno)
